@@ -19,6 +19,8 @@ CLAIMED = {
 
  'C08': ('5.8', 'Integers of every width 1..8 read at full value, each documented plain-integer element fills its documented column, v9/IPFIX clock rules with 2^64 wrap, every v5 column, enrichment and unmapping -- proved on the model; tied to the Go producer by an exhaustive sweep of element id 0..511 x width 0..9 x version and random multi-field records through the real pipe.', 'Partial: the reference mapping is the model (table theorems about it), not an independent per-column reference. '),
  'C13': ('5.13', 'Varint length prefix round trip, unambiguous splitting of any concatenated stream, well-formedness of the JSON object for any rendered values and any (ASCII) string bytes -- proved; the real bin output is compared byte for byte with the model encoder, encoding/json with the model escape (all single bytes exhaustively), and json.Valid / key order / protodelim stream / cross-format agreement are judged on the implementation under generated formatter configurations.', 'Partial: renderers and non-ASCII escaping are judged on the implementation only (json.Valid), protobuf-go and encoding/json are trusted. '),
+
+ 'C14': ('5.14', 'Custom destinations append exactly one unknown field with the configured number/wire type/value, existing columns are filled, unmatched traffic is unaffected, bit extraction equals the bit-level specification on a finite domain enumerated inside Coq, the key depends only on the key fields -- proved on the model; generated mapping files loaded by the real YAML loader and run over mixed traffic compared with the model compiled from the same abstract configuration; GetBytes swept on both sides.', 'Partial: get_bytes = bit spec is proved on a finite domain (buffers <= 2 bytes over a byte basis, offsets/lengths 0..17) and swept, not proved for all buffers; formatter.fields/rename/render are judged on the implementation. '),
 }
 props = [json.loads(l) for l in open(os.path.join(V, 'properties.jsonl'))]
 checks, na = [], []
